@@ -391,11 +391,47 @@ def fl(b):
     return unbits(b)
 
 
+def mk_state_bits(variant, v):
+    """like mk_state, every number given as its IEEE bit pattern"""
+    if "rv" in v:
+        return RealVectorState([unbits(x) for x in v["rv"]])
+    if "so2" in v:
+        return SO2State(unbits(v["so2"]))
+    if "so3" in v:
+        q = [unbits(x) for x in v["so3"]]
+        return SO3State(q[0], q[1], q[2], q[3])
+    c = v["cmp"]
+    if variant == "SE2":
+        xy = [unbits(x) for x in c[0]["rv"]]
+        return SE2State(xy[0], xy[1], unbits(c[1]["so2"]))
+    if variant == "SE3":
+        p = [unbits(x) for x in c[0]["rv"]]
+        q = [unbits(x) for x in c[1]["so3"]]
+        return SE3State(p[0], p[1], p[2], SO3State(q[0], q[1], q[2], q[3]))
+    return CompoundState([mk_state_bits(variant, x) for x in c])
+
+
 def wrappers(cases, rep):
     for c in cases:
         rep.count("wrapper_cases")
         ctor = c["ctor"]
         det = {"case": c}
+        if ctor == "space-distances":
+            det = {"case": {"space": c["space"], "variant": c["variant"]}}
+            try:
+                sp = mk_space(c["space"])
+            except Exception as e:  # noqa: BLE001
+                rep.violate("wrapper|%s|unexpected-exception" % c["variant"], "space constructor raised %s" % type(e).__name__, det)
+                continue
+            for pr in c["pairs"]:
+                a = mk_state_bits(c["variant"], pr["a"])
+                b = mk_state_bits(c["variant"], pr["b"])
+                rep.count("wrapper_distances_compared")
+                if bits(sp.distance(a, b)) != pr["dist"]:
+                    rep.violate("wrapper|%s|distance-differs" % c["variant"], "distance differs from the core on the pair lattice", dict(det, pair=pr))
+                    break
+            rep.distinct.add(hash(json.dumps(c["space"], sort_keys=True) + c["variant"]))
+            continue
         try:
             if ctor == "RealVectorStateSpace":
                 b = c["bounds"]
